@@ -106,6 +106,7 @@ struct Run {
 	const Config & cfg;
 	QIface * q = nullptr;
 	bool heter = false;
+	int spurious = 0;          // spurious wake-ups allowed in this execution (a deviation each)
 	std::vector<Ev> evs;          // index = id-1
 	std::vector<Call> calls;
 	std::vector<DqnRec> dqns;
@@ -376,6 +377,7 @@ struct Run {
 		};
 		Sched & s = sched();
 		s.begin();
+		s.spuriousBudget = spurious;
 		bool aborted = false;
 		{
 			std::unique_ptr<QIface> holder(heter ? static_cast<QIface *>(new HeterImpl()) : static_cast<QIface *>(new HomoImpl()));
@@ -509,6 +511,7 @@ static void addFamily(const char * fam, std::vector<Config> (*gen)(int), int bou
 					ctx.ex.choose(1000, 1000, K_OP);   // consumes the forced configuration index
 					Run run(ctx, cfg);
 					run.heter = heter;
+					run.spurious = (tier >= 1 && std::string(fam).compare(0, 3, "C07") == 0) ? 1 : 0;
 					run.run();
 					maxPoints = std::max(maxPoints, sched().steps);
 					if(sched().deadlock.happened) ++deadlocks;
@@ -534,6 +537,7 @@ static void addFamily(const char * fam, std::vector<Config> (*gen)(int), int bou
 				ctx.log("configuration: " + mine[ci].name());
 				Run run(ctx, mine[ci]);
 				run.heter = heter;
+				run.spurious = (ctx.tier >= 1 && std::string(fam).compare(0, 3, "C07") == 0) ? 1 : 0;
 				run.run();
 				return;
 			}
